@@ -83,6 +83,19 @@ pub fn msm_strategy(sizes: Vec<usize>, pool_only: bool) -> BoxedStrategy<Req> {
     prop_oneof![3 => msm, 1 => pre].boxed()
 }
 
+/// chains: the un-normalised result of one multiplication is the input of the next
+pub fn chain_strategy() -> BoxedStrategy<Req> {
+    (point_any(), vec((0u8..8, scalar_for_mul(), scalar_for_mul()), 2..=8)).prop_map(|(p, steps)| {
+        let mut b = vec![];
+        for (k, s, t) in steps {
+            b.push(k);
+            b.extend_from_slice(&s);
+            b.extend_from_slice(&t);
+        }
+        Req::new("sm.chain", vec![p.to_vec(), b])
+    }).boxed()
+}
+
 pub fn recode_strategy() -> BoxedStrategy<Req> {
     (scalar_unreduced255(), prop_oneof![Just((0u8, 4u8)), (4u8..=8).prop_map(|w| (1u8, w)), (2u8..=8).prop_map(|w| (2u8, w))])
         .prop_map(|(s, (kind, w))| Req::new("sm.recode", vec![s.to_vec(), vec![kind], vec![w]])).boxed()
@@ -188,7 +201,7 @@ pub fn dispatch_choices() -> Vec<(&'static str, u8)> {
     }
 }
 
-pub const RULE: &str = "every Edwards scalar-multiplication entry point (variable-base in all operator forms, mul_base, clamped variants, the Montgomery ladder (scalar and bit-string forms), the Ristretto wrappers, the shipped table, tables of 5 radices created from arbitrary points and converted between radices, vartime double-base, constant-time / vartime / optional multiscalar, precomputed mixed multiscalar with fewer static scalars and None inputs) executed once per implementation the run-time dispatcher can select (forced through the hook); points from a pool with known discrete logs (with and without 8-torsion) and arbitrary curve points; scalars window-structured (radix/NAF corners), canonical everywhere and unreduced < 2^255 where documented; n in {0,1,2,3,8,63,64,65,189,190,191,499,500,501,799,800,801,1000}; the signed-digit recoders themselves are checked by a validity predicate (digits denote the integer, documented ranges/sparsity). Non-trivial = unreduced or special-pattern scalar, torsion-carrying point, n on a regime boundary, a None input, a table of an arbitrary point, or a clamped variant";
+pub const RULE: &str = "every Edwards scalar-multiplication entry point (variable-base in all operator forms, mul_base, clamped variants, the Montgomery ladder (scalar and bit-string forms), the Ristretto wrappers, the shipped table, tables of 5 radices created from arbitrary points and converted between radices, vartime double-base, constant-time / vartime / optional multiscalar, precomputed mixed multiscalar with fewer static scalars and None inputs) executed once per implementation the run-time dispatcher can select (forced through the hook); points from a pool with known discrete logs (with and without 8-torsion) and arbitrary curve points; scalars window-structured (radix/NAF corners), canonical everywhere and unreduced < 2^255 where documented; n in {0,1,2,3,8,63,64,65,189,190,191,499,500,501,799,800,801,1000}; chains of 2..8 multiplications in which the un-normalised result of one algorithm is the input of the next (so representations produced by a back end are fed back into it); the signed-digit recoders themselves are checked by a validity predicate (digits denote the integer, documented ranges/sparsity). Non-trivial = unreduced or special-pattern scalar, torsion-carrying point, n on a regime boundary, a None input, a table of an arbitrary point, or a clamped variant";
 
 pub fn checks(tier: Tier) -> Vec<Check> {
     let tables = cfg!(feature = "tables");
@@ -214,6 +227,17 @@ pub fn checks(tier: Tier) -> Vec<Check> {
             exec: forced_exec(kind),
             oracle: Box::new(crate::mops::oracle),
             classify: Box::new(classify),
+            rule: RULE,
+            exhaustive: false,
+            enumerate: None,
+        });
+        v.push(Check {
+            name: format!("C04.chains[{}]", label),
+            strategy: chain_strategy(),
+            cases: tier.scale(1_500, 20),
+            exec: forced_exec(kind),
+            oracle: Box::new(crate::mops::oracle),
+            classify: Box::new(|r: &Req, _: &Resp| if r.a[1].len() / 65 >= 4 { vec!["chain-of>=4-multiplications"] } else { vec!["chain"] }),
             rule: RULE,
             exhaustive: false,
             enumerate: None,
